@@ -1,6 +1,8 @@
 package setmodel
 
 import (
+	"cmp"
+	"slices"
 	"sort"
 	"strconv"
 	"sync"
@@ -47,11 +49,11 @@ func getPool() *poolT {
 			buf = strconv.AppendUint(buf, uint64(i), 36)
 			all[i] = hn{XXH64(buf), uint32(i)}
 		}
-		sort.Slice(all, func(i, j int) bool {
-			if all[i].h != all[j].h {
-				return all[i].h < all[j].h
+		slices.SortFunc(all, func(a, b hn) int {
+			if c := cmp.Compare(a.h, b.h); c != 0 {
+				return c
 			}
-			return all[i].n < all[j].n
+			return cmp.Compare(a.n, b.n)
 		})
 		pool.hash = make([]uint64, PoolSize)
 		pool.n = make([]uint32, PoolSize)
